@@ -8,6 +8,9 @@ package gi
 // return-from / go marker an evaluation hands back: nothing more is evaluated
 // and the marker is the function's result.
 //@ every-function gi forward-exits
+// C05, package-wide (thorough tier): no function makes a number that existed
+// when it was entered the target of a mutating math/big method.
+//@ every-function gi operands-kept
 
 // with-mutex-lock: the mutex is held while every body form is evaluated and
 // the lock balance at every return equals the balance at entry.
